@@ -47,9 +47,14 @@ struct TGreater { // harness transparent comparator, descending
     bool operator()(HK a, int b) const { return a.v > b; }
     bool operator()(int a, HK b) const { return a > b.v; }
 };
-struct MCmp { // model comparator (run-time direction)
-    bool desc = false;
-    bool operator()(int a, int b) const { return desc ? a > b : a < b; }
+// coarse comparator: keys 2j-1 and 2j are equivalent (equivalence under Compare is not operator==)
+inline int coarse_class(int a) { return (a + 1) / 2; }
+struct CoarseLess {
+    bool operator()(int a, int b) const { return coarse_class(a) < coarse_class(b); }
+};
+struct MCmp { // model comparator (run-time mode: 0 ascending, 1 descending, 2 coarse ascending)
+    int mode = 0;
+    bool operator()(int a, int b) const { return mode == 1 ? a > b : mode == 2 ? coarse_class(a) < coarse_class(b) : a < b; }
 };
 using M  = std::set<int, MCmp>;
 using MM = std::multiset<int, MCmp>;
@@ -193,14 +198,14 @@ private:
 };
 
 // ------------------------------------------------------------------ configuration
-template <typename SetT, typename KeyT, std::size_t Cap, int Univ, bool Desc, bool Het, bool Static, bool Tracked,
+template <typename SetT, typename KeyT, std::size_t Cap, int Univ, int Mode, bool Het, bool Static, bool Tracked,
     bool InlineStorage>
 struct CfgBase {
     using Set                             = SetT;
     using Key                             = KeyT;
     static constexpr std::size_t cap      = Cap;
     static constexpr int universe         = Univ;
-    static constexpr bool desc            = Desc;
+    static constexpr int mode             = Mode; // 0 ascending, 1 descending, 2 coarse (equivalence classes of two keys)
     static constexpr bool hetero          = Het;
     static constexpr bool is_static       = Static;  // static_set (capacity rule applies)
     static constexpr bool tracked         = Tracked; // key type is vf::Tracked
@@ -284,7 +289,7 @@ struct Drv {
     static constexpr std::size_t cap = C::cap;
     static constexpr int U           = C::universe;
 
-    static M model() { return M(MCmp{C::desc}); }
+    static M model() { return M(MCmp{C::mode}); }
     static M model_of(unsigned mask)
     {
         M m = model();
@@ -304,13 +309,14 @@ struct Drv {
         static std::uint64_t const base = vf::fnv(C::name);
         return vf::mix(vf::mix(base, mask_of(m)), vf::mix(a, b));
     }
-    static bool cmp(int a, int b) { return MCmp{C::desc}(a, b); }
+    static bool cmp(int a, int b) { return MCmp{C::mode}(a, b); }
 
     // -------------------------------------------------------------- situations
     static char const* fill(M const& m) { return m.empty() ? "empty" : (m.size() >= cap ? "full" : "not-full"); }
     static std::string key_sit(M const& m, int k)
     {
-        char const* p = m.count(k) ? "key-present" : (m.lower_bound(k) != m.end() ? "key-absent,has-successor" : "key-absent,no-successor");
+        char const* p = m.count(k) ? (*m.find(k) == k ? "key-present" : "equivalent-key-present")
+                                   : (m.lower_bound(k) != m.end() ? "key-absent,has-successor" : "key-absent,no-successor");
         return std::string(p) + "," + fill(m);
     }
     static long long mpos(M const& m, M::const_iterator it) { return (long long)std::distance(m.begin(), it); }
@@ -599,6 +605,16 @@ struct Drv {
     }
 
     // model of a range insert: sequential insert with the capacity rule (static_set); flat_set: only issued when it fits
+    // which of several distinct-but-equivalent keys inside ONE range gets inserted is unspecified (LWG 2844): never issued
+    static bool range_ambiguous(std::vector<int> const& seq)
+    {
+        for (std::size_t i = 0; i < seq.size(); ++i) {
+            for (std::size_t j = i + 1; j < seq.size(); ++j) {
+                if (seq[i] != seq[j] && !cmp(seq[i], seq[j]) && !cmp(seq[j], seq[i])) { return true; }
+            }
+        }
+        return false;
+    }
     static bool range_fits(M const& m, std::vector<int> const& seq)
     {
         M t = m;
@@ -1047,8 +1063,10 @@ struct Drv {
         unsigned order   = sub_index + family;
         if constexpr (C::tracked) { vf::registry().reset(); }
 #if VF_UNIT == 6 || VF_UNIT == 7
-        if (family != F_SPECIAL) { return; }
-#endif
+        op_special(m0, order); // these units consist of the special family only (keeps their instantiation set small)
+        if constexpr (C::tracked) { vf::expect_no_live("end of case"); }
+        (void)family;
+#else
         switch (family) {
         case F_LOOKUP:
             for (unsigned o = 0; o < 4; ++o) {
@@ -1089,6 +1107,7 @@ struct Drv {
                     int c = code;
                     for (int i = 0; i < len; ++i, c /= U) { seq[(std::size_t)i] = 1 + c % U; }
                     if (!C::is_static && !range_fits(m0, seq)) { continue; }
+                    if (range_ambiguous(seq)) { continue; }
                     fresh(m0, order + (unsigned)code, [&](Set& s, M& m) { op_insert_range(s, m, seq); });
                 }
             }
@@ -1185,6 +1204,7 @@ struct Drv {
         default: break;
         }
         if constexpr (C::tracked) { vf::expect_no_live("end of case"); }
+#endif
     }
 
     // -------------------------------------------------------------- random history
@@ -1223,7 +1243,7 @@ struct Drv {
                         std::vector<int> seq;
                         std::size_t n = (std::size_t)r.below(4);
                         for (std::size_t i = 0; i < n; ++i) { seq.push_back((int)r.range(1, U)); }
-                        if (C::is_static || range_fits(m, seq)) { ok = op_insert_range(s, m, seq); }
+                        if ((C::is_static || range_fits(m, seq)) && !range_ambiguous(seq)) { ok = op_insert_range(s, m, seq); }
                     }
                 } else if (pick < 80) {
                     unsigned which = (unsigned)r.below(10);
@@ -1270,7 +1290,7 @@ struct MDrv {
     static constexpr std::size_t cap = C::cap;
     static constexpr int U           = C::universe;
 
-    static bool cmp(int a, int b) { return MCmp{C::desc}(a, b); }
+    static bool cmp(int a, int b) { return MCmp{C::mode}(a, b); }
 
     template <typename S>
     static void check(S& s, std::vector<int> const& exp)
@@ -1405,15 +1425,20 @@ struct Entry {
     void (*run_random)(vf::Case&);
 };
 
-#define DEF_CFG(ID, NAME, KEY, CAP, UNIV, DESC, HET, STATIC, TRACKED, INLINE, ...)                                     \
-    struct ID : CfgBase<__VA_ARGS__, KEY, CAP, UNIV, DESC, HET, STATIC, TRACKED, INLINE> {                            \
+#define DEF_CFG(ID, NAME, KEY, CAP, UNIV, MODE, HET, STATIC, TRACKED, INLINE, ...)                                     \
+    struct ID : CfgBase<__VA_ARGS__, KEY, CAP, UNIV, MODE, HET, STATIC, TRACKED, INLINE> {                            \
         static constexpr char const* name = NAME;                                                                      \
     };
 
 template <typename C>
 Entry set_entry(bool enumerate, unsigned weight)
 {
-    return Entry{C::name, enumerate ? subsets(C::universe, C::cap).size() : 0, F_COUNT, weight, &Drv<C>::run_enum, &Drv<C>::run_random};
+#if VF_UNIT == 6 || VF_UNIT == 7
+    unsigned const nfam = 1;
+#else
+    unsigned const nfam = F_COUNT;
+#endif
+    return Entry{C::name, enumerate ? subsets(C::universe, C::cap).size() : 0, nfam, weight, &Drv<C>::run_enum, &Drv<C>::run_random};
 }
 template <typename C>
 Entry mset_entry(unsigned weight)
@@ -1423,110 +1448,145 @@ Entry mset_entry(unsigned weight)
 
 using TK = vf::TCM;
 
-#define SSET4(N, U)                                                                                                    \
-    DEF_CFG(SS_less_##N, "static_set<int," #N ",less>", int, N, U, false, false, true, false, true, etl::static_set<int, N, etl::less<int>>)       \
-    DEF_CFG(SS_greater_##N, "static_set<int," #N ",greater>", int, N, U, true, false, true, false, true, etl::static_set<int, N, etl::greater<int>>) \
-    DEF_CFG(SS_tless_##N, "static_set<int," #N ",less<>>", int, N, U, false, true, true, false, true, etl::static_set<int, N, etl::less<>>)        \
-    DEF_CFG(SS_tgreater_##N, "static_set<int," #N ",transparent_greater>", int, N, U, true, true, true, false, true, etl::static_set<int, N, TGreater>)
-#define FSV4(N, U)                                                                                                     \
-    DEF_CFG(FS_less_##N, "flat_set<int,static_vector<" #N ">,less>", int, N, U, false, false, false, false, true, etl::flat_set<int, etl::static_vector<int, N>, etl::less<int>>)          \
-    DEF_CFG(FS_greater_##N, "flat_set<int,static_vector<" #N ">,greater>", int, N, U, true, false, false, false, true, etl::flat_set<int, etl::static_vector<int, N>, etl::greater<int>>)   \
-    DEF_CFG(FS_tless_##N, "flat_set<int,static_vector<" #N ">,less<>>", int, N, U, false, true, false, false, true, etl::flat_set<int, etl::static_vector<int, N>, etl::less<>>)           \
-    DEF_CFG(FS_tgreater_##N, "flat_set<int,static_vector<" #N ">,transparent_greater>", int, N, U, true, true, false, false, true, etl::flat_set<int, etl::static_vector<int, N>, TGreater>)
-#define FVL4(N, U)                                                                                                     \
-    DEF_CFG(FV_less_##N, "flat_set<int,vec_like[" #N "],less>", int, N, U, false, false, false, false, false, etl::flat_set<int, vec_like<int>, etl::less<int>>)          \
-    DEF_CFG(FV_greater_##N, "flat_set<int,vec_like[" #N "],greater>", int, N, U, true, false, false, false, false, etl::flat_set<int, vec_like<int>, etl::greater<int>>)   \
-    DEF_CFG(FV_tless_##N, "flat_set<int,vec_like[" #N "],less<>>", int, N, U, false, true, false, false, false, etl::flat_set<int, vec_like<int>, etl::less<>>)           \
-    DEF_CFG(FV_tgreater_##N, "flat_set<int,vec_like[" #N "],transparent_greater>", int, N, U, true, true, false, false, false, etl::flat_set<int, vec_like<int>, TGreater>)
+#ifndef VF_PART
+    #define VF_PART 0
+#endif
 
-#if VF_UNIT == 1 || VF_UNIT == 6
+// four comparators per (family, capacity): less<int>, greater<int>, less<> (+ heterogeneous key), harness transparent greater
+#define SSET4(N, U)                                                                                                    \
+    DEF_CFG(SS_less_##N, "static_set<int," #N ",less>", int, N, U, 0, false, true, false, true, etl::static_set<int, N, etl::less<int>>)       \
+    DEF_CFG(SS_greater_##N, "static_set<int," #N ",greater>", int, N, U, 1, false, true, false, true, etl::static_set<int, N, etl::greater<int>>) \
+    DEF_CFG(SS_tless_##N, "static_set<int," #N ",less<>>", int, N, U, 0, true, true, false, true, etl::static_set<int, N, etl::less<>>)        \
+    DEF_CFG(SS_tgreater_##N, "static_set<int," #N ",transparent_greater>", int, N, U, 1, true, true, false, true, etl::static_set<int, N, TGreater>)
+#define SSET1(N, U, ID, CMPNAME, MODE, CMP)                                                                            \
+    DEF_CFG(SS_##ID##_##N, "static_set<int," #N "," CMPNAME ">", int, N, U, MODE, false, true, false, true, etl::static_set<int, N, CMP>)
+#define FSV4(N, U)                                                                                                     \
+    DEF_CFG(FS_less_##N, "flat_set<int,static_vector<" #N ">,less>", int, N, U, 0, false, false, false, true, etl::flat_set<int, etl::static_vector<int, N>, etl::less<int>>)          \
+    DEF_CFG(FS_greater_##N, "flat_set<int,static_vector<" #N ">,greater>", int, N, U, 1, false, false, false, true, etl::flat_set<int, etl::static_vector<int, N>, etl::greater<int>>)   \
+    DEF_CFG(FS_tless_##N, "flat_set<int,static_vector<" #N ">,less<>>", int, N, U, 0, true, false, false, true, etl::flat_set<int, etl::static_vector<int, N>, etl::less<>>)           \
+    DEF_CFG(FS_tgreater_##N, "flat_set<int,static_vector<" #N ">,transparent_greater>", int, N, U, 1, true, false, false, true, etl::flat_set<int, etl::static_vector<int, N>, TGreater>)
+#define FSV1(N, U, ID, CMPNAME, MODE, CMP)                                                                             \
+    DEF_CFG(FS_##ID##_##N, "flat_set<int,static_vector<" #N ">," CMPNAME ">", int, N, U, MODE, false, false, false, true, etl::flat_set<int, etl::static_vector<int, N>, CMP>)
+#define FVL4(N, U)                                                                                                     \
+    DEF_CFG(FV_less_##N, "flat_set<int,vec_like[" #N "],less>", int, N, U, 0, false, false, false, false, etl::flat_set<int, vec_like<int>, etl::less<int>>)          \
+    DEF_CFG(FV_greater_##N, "flat_set<int,vec_like[" #N "],greater>", int, N, U, 1, false, false, false, false, etl::flat_set<int, vec_like<int>, etl::greater<int>>)   \
+    DEF_CFG(FV_tless_##N, "flat_set<int,vec_like[" #N "],less<>>", int, N, U, 0, true, false, false, false, etl::flat_set<int, vec_like<int>, etl::less<>>)           \
+    DEF_CFG(FV_tgreater_##N, "flat_set<int,vec_like[" #N "],transparent_greater>", int, N, U, 1, true, false, false, false, etl::flat_set<int, vec_like<int>, TGreater>)
+#define FVL1(N, U, ID, CMPNAME, MODE, CMP)                                                                             \
+    DEF_CFG(FV_##ID##_##N, "flat_set<int,vec_like[" #N "]," CMPNAME ">", int, N, U, MODE, false, false, false, false, etl::flat_set<int, vec_like<int>, CMP>)
+#define ENTRIES4(P, N, EN, W) set_entry<P##_less_##N>(EN, W), set_entry<P##_greater_##N>(EN, W), set_entry<P##_tless_##N>(EN, W), set_entry<P##_tgreater_##N>(EN, W)
+
+// ---- unit 1: static_set<int>
+#if VF_UNIT == 1 && VF_PART == 0
 SSET4(3, 6)
+SSET1(1, 6, less, "less", 0, etl::less<int>)
+SSET1(2, 6, greater, "greater", 1, etl::greater<int>)
+SSET1(3, 6, coarse, "coarse_less", 2, CoarseLess)
+std::vector<Entry> entries() { return {ENTRIES4(SS, 3, true, 2), set_entry<SS_less_1>(true, 1), set_entry<SS_greater_2>(true, 1), set_entry<SS_coarse_3>(true, 2)}; }
+#elif VF_UNIT == 1 && VF_PART == 1
 SSET4(4, 6)
-DEF_CFG(SS_less_1, "static_set<int,1,less>", int, 1, 6, false, false, true, false, true, etl::static_set<int, 1, etl::less<int>>)
-    #if VF_UNIT == 1
+SSET1(4, 6, coarse, "coarse_less", 2, CoarseLess)
+std::vector<Entry> entries() { return {ENTRIES4(SS, 4, true, 2), set_entry<SS_coarse_4>(true, 2)}; }
+#elif VF_UNIT == 1 && VF_PART == 2
 SSET4(16, 18)
-    #endif
-std::vector<Entry> entries()
-{
-    return {
-        set_entry<SS_less_3>(true, 2), set_entry<SS_greater_3>(true, 2), set_entry<SS_tless_3>(true, 2), set_entry<SS_tgreater_3>(true, 2),
-        set_entry<SS_less_4>(true, 2), set_entry<SS_greater_4>(true, 2), set_entry<SS_tless_4>(true, 2), set_entry<SS_tgreater_4>(true, 2),
-        set_entry<SS_less_1>(true, 1),
-    #if VF_UNIT == 1
-        set_entry<SS_less_16>(false, 3), set_entry<SS_greater_16>(false, 3), set_entry<SS_tless_16>(false, 3), set_entry<SS_tgreater_16>(false, 3),
-    #endif
-    };
-}
+SSET1(16, 18, coarse, "coarse_less", 2, CoarseLess)
+std::vector<Entry> entries() { return {ENTRIES4(SS, 16, false, 2), set_entry<SS_coarse_16>(false, 2)}; }
+#elif VF_UNIT == 1 && VF_PART == 3 // thorough only: larger enumerated scope
+SSET1(5, 7, less, "less", 0, etl::less<int>)
+SSET1(5, 7, greater, "greater", 1, etl::greater<int>)
+std::vector<Entry> entries() { return {set_entry<SS_less_5>(true, 1), set_entry<SS_greater_5>(true, 1)}; }
+// ---- unit 2: static_set<Tracked>
 #elif VF_UNIT == 2
-DEF_CFG(ST_less_3, "static_set<Tracked,3,less>", TK, 3, 6, false, false, true, true, true, etl::static_set<TK, 3, etl::less<TK>>)
-DEF_CFG(ST_less_4, "static_set<Tracked,4,less>", TK, 4, 6, false, false, true, true, true, etl::static_set<TK, 4, etl::less<TK>>)
-DEF_CFG(ST_greater_4, "static_set<Tracked,4,greater>", TK, 4, 6, true, false, true, true, true, etl::static_set<TK, 4, etl::greater<TK>>)
-DEF_CFG(ST_less_16, "static_set<Tracked,16,less>", TK, 16, 18, false, false, true, true, true, etl::static_set<TK, 16, etl::less<TK>>)
+DEF_CFG(ST_less_3, "static_set<Tracked,3,less>", TK, 3, 6, 0, false, true, true, true, etl::static_set<TK, 3, etl::less<TK>>)
+DEF_CFG(ST_less_4, "static_set<Tracked,4,less>", TK, 4, 6, 0, false, true, true, true, etl::static_set<TK, 4, etl::less<TK>>)
+DEF_CFG(ST_greater_4, "static_set<Tracked,4,greater>", TK, 4, 6, 1, false, true, true, true, etl::static_set<TK, 4, etl::greater<TK>>)
+DEF_CFG(ST_less_16, "static_set<Tracked,16,less>", TK, 16, 18, 0, false, true, true, true, etl::static_set<TK, 16, etl::less<TK>>)
 std::vector<Entry> entries()
 {
     return {set_entry<ST_less_3>(true, 2), set_entry<ST_less_4>(true, 2), set_entry<ST_greater_4>(true, 2), set_entry<ST_less_16>(false, 3)};
 }
-#elif VF_UNIT == 3 || VF_UNIT == 7
+// ---- unit 3: flat_set<int, static_vector>
+#elif VF_UNIT == 3 && VF_PART == 0
 FSV4(3, 6)
+FSV1(1, 6, less, "less", 0, etl::less<int>)
+FSV1(2, 6, greater, "greater", 1, etl::greater<int>)
+FSV1(3, 6, coarse, "coarse_less", 2, CoarseLess)
+std::vector<Entry> entries() { return {ENTRIES4(FS, 3, true, 2), set_entry<FS_less_1>(true, 1), set_entry<FS_greater_2>(true, 1), set_entry<FS_coarse_3>(true, 2)}; }
+#elif VF_UNIT == 3 && VF_PART == 1
 FSV4(4, 6)
-DEF_CFG(FS_less_1, "flat_set<int,static_vector<1>,less>", int, 1, 6, false, false, false, false, true, etl::flat_set<int, etl::static_vector<int, 1>, etl::less<int>>)
-    #if VF_UNIT == 3
+FSV1(4, 6, coarse, "coarse_less", 2, CoarseLess)
+std::vector<Entry> entries() { return {ENTRIES4(FS, 4, true, 2), set_entry<FS_coarse_4>(true, 2)}; }
+#elif VF_UNIT == 3 && VF_PART == 2
 FSV4(16, 18)
-    #else
-DEF_CFG(FV_less_4, "flat_set<int,vec_like[4],less>", int, 4, 6, false, false, false, false, false, etl::flat_set<int, vec_like<int>, etl::less<int>>)
-DEF_CFG(FV_tgreater_4, "flat_set<int,vec_like[4],transparent_greater>", int, 4, 6, true, true, false, false, false, etl::flat_set<int, vec_like<int>, TGreater>)
-    #endif
-std::vector<Entry> entries()
-{
-    return {
-        set_entry<FS_less_3>(true, 2), set_entry<FS_greater_3>(true, 2), set_entry<FS_tless_3>(true, 2), set_entry<FS_tgreater_3>(true, 2),
-        set_entry<FS_less_4>(true, 2), set_entry<FS_greater_4>(true, 2), set_entry<FS_tless_4>(true, 2), set_entry<FS_tgreater_4>(true, 2),
-        set_entry<FS_less_1>(true, 1),
-    #if VF_UNIT == 3
-        set_entry<FS_less_16>(false, 3), set_entry<FS_greater_16>(false, 3), set_entry<FS_tless_16>(false, 3), set_entry<FS_tgreater_16>(false, 3),
-    #else
-        set_entry<FV_less_4>(true, 1), set_entry<FV_tgreater_4>(true, 1),
-    #endif
-    };
-}
-#elif VF_UNIT == 4
+FSV1(16, 18, coarse, "coarse_less", 2, CoarseLess)
+std::vector<Entry> entries() { return {ENTRIES4(FS, 16, false, 2), set_entry<FS_coarse_16>(false, 2)}; }
+#elif VF_UNIT == 3 && VF_PART == 3 // thorough only
+FSV1(5, 7, less, "less", 0, etl::less<int>)
+FSV1(5, 7, greater, "greater", 1, etl::greater<int>)
+std::vector<Entry> entries() { return {set_entry<FS_less_5>(true, 1), set_entry<FS_greater_5>(true, 1)}; }
+// ---- unit 4: flat_set<int, vec_like>
+#elif VF_UNIT == 4 && VF_PART == 0
 FVL4(3, 6)
+FVL1(3, 6, coarse, "coarse_less", 2, CoarseLess)
+std::vector<Entry> entries() { return {ENTRIES4(FV, 3, true, 2), set_entry<FV_coarse_3>(true, 2)}; }
+#elif VF_UNIT == 4 && VF_PART == 1
 FVL4(4, 6)
+std::vector<Entry> entries() { return {ENTRIES4(FV, 4, true, 2)}; }
+#elif VF_UNIT == 4 && VF_PART == 2
 FVL4(16, 18)
-std::vector<Entry> entries()
-{
-    return {
-        set_entry<FV_less_3>(true, 2), set_entry<FV_greater_3>(true, 2), set_entry<FV_tless_3>(true, 2), set_entry<FV_tgreater_3>(true, 2),
-        set_entry<FV_less_4>(true, 2), set_entry<FV_greater_4>(true, 2), set_entry<FV_tless_4>(true, 2), set_entry<FV_tgreater_4>(true, 2),
-        set_entry<FV_less_16>(false, 3), set_entry<FV_greater_16>(false, 3), set_entry<FV_tless_16>(false, 3), set_entry<FV_tgreater_16>(false, 3),
-    };
-}
+std::vector<Entry> entries() { return {ENTRIES4(FV, 16, false, 2)}; }
+// ---- unit 5: flat_multiset
 #elif VF_UNIT == 5
-DEF_CFG(MS_sv_less, "flat_multiset<int,static_vector<4>,less>", int, 4, 5, false, false, false, false, true, etl::flat_multiset<int, etl::static_vector<int, 4>, etl::less<int>>)
-DEF_CFG(MS_sv_greater, "flat_multiset<int,static_vector<4>,greater>", int, 4, 5, true, false, false, false, true, etl::flat_multiset<int, etl::static_vector<int, 4>, etl::greater<int>>)
-DEF_CFG(MS_sv_tless, "flat_multiset<int,static_vector<4>,less<>>", int, 4, 5, false, true, false, false, true, etl::flat_multiset<int, etl::static_vector<int, 4>, etl::less<>>)
-DEF_CFG(MS_sv_tgreater, "flat_multiset<int,static_vector<5>,transparent_greater>", int, 5, 4, true, true, false, false, true, etl::flat_multiset<int, etl::static_vector<int, 5>, TGreater>)
-DEF_CFG(MS_vl_less, "flat_multiset<int,vec_like[5],less>", int, 5, 4, false, false, false, false, false, etl::flat_multiset<int, vec_like<int>, etl::less<int>>)
-DEF_CFG(MS_vl_greater, "flat_multiset<int,vec_like[4],greater>", int, 4, 5, true, false, false, false, false, etl::flat_multiset<int, vec_like<int>, etl::greater<int>>)
-DEF_CFG(MS_tr_less, "flat_multiset<Tracked,static_vector<4>,less>", TK, 4, 4, false, false, false, true, true, etl::flat_multiset<TK, etl::static_vector<TK, 4>, etl::less<TK>>)
-DEF_CFG(MS_sv_less_16, "flat_multiset<int,static_vector<16>,less>", int, 16, 1, false, false, false, false, true, etl::flat_multiset<int, etl::static_vector<int, 16>, etl::less<int>>)
-DEF_CFG(MS_vl_greater_33, "flat_multiset<int,vec_like[33],greater>", int, 33, 1, true, false, false, false, false, etl::flat_multiset<int, vec_like<int>, etl::greater<int>>)
-DEF_CFG(MS_tr_greater_9, "flat_multiset<Tracked,static_vector<9>,greater>", TK, 9, 1, true, false, false, true, true, etl::flat_multiset<TK, etl::static_vector<TK, 9>, etl::greater<TK>>)
+DEF_CFG(MS_sv_less, "flat_multiset<int,static_vector<4>,less>", int, 4, 5, 0, false, false, false, true, etl::flat_multiset<int, etl::static_vector<int, 4>, etl::less<int>>)
+DEF_CFG(MS_sv_greater, "flat_multiset<int,static_vector<4>,greater>", int, 4, 5, 1, false, false, false, true, etl::flat_multiset<int, etl::static_vector<int, 4>, etl::greater<int>>)
+DEF_CFG(MS_sv_tless, "flat_multiset<int,static_vector<4>,less<>>", int, 4, 5, 0, true, false, false, true, etl::flat_multiset<int, etl::static_vector<int, 4>, etl::less<>>)
+DEF_CFG(MS_sv_tgreater, "flat_multiset<int,static_vector<5>,transparent_greater>", int, 5, 4, 1, true, false, false, true, etl::flat_multiset<int, etl::static_vector<int, 5>, TGreater>)
+DEF_CFG(MS_vl_less, "flat_multiset<int,vec_like[5],less>", int, 5, 4, 0, false, false, false, false, etl::flat_multiset<int, vec_like<int>, etl::less<int>>)
+DEF_CFG(MS_vl_greater, "flat_multiset<int,vec_like[4],greater>", int, 4, 5, 1, false, false, false, false, etl::flat_multiset<int, vec_like<int>, etl::greater<int>>)
+DEF_CFG(MS_tr_less, "flat_multiset<Tracked,static_vector<4>,less>", TK, 4, 4, 0, false, false, true, true, etl::flat_multiset<TK, etl::static_vector<TK, 4>, etl::less<TK>>)
+DEF_CFG(MS_sv_less_16, "flat_multiset<int,static_vector<16>,less>", int, 16, 1, 0, false, false, false, true, etl::flat_multiset<int, etl::static_vector<int, 16>, etl::less<int>>)
+DEF_CFG(MS_vl_greater_33, "flat_multiset<int,vec_like[33],greater>", int, 33, 1, 1, false, false, false, false, etl::flat_multiset<int, vec_like<int>, etl::greater<int>>)
+DEF_CFG(MS_tr_greater_9, "flat_multiset<Tracked,static_vector<9>,greater>", TK, 9, 1, 1, false, false, true, true, etl::flat_multiset<TK, etl::static_vector<TK, 9>, etl::greater<TK>>)
 std::vector<Entry> entries()
 {
     return {mset_entry<MS_sv_less>(1), mset_entry<MS_sv_greater>(1), mset_entry<MS_sv_tless>(1), mset_entry<MS_sv_tgreater>(1), mset_entry<MS_vl_less>(1),
         mset_entry<MS_vl_greater>(1), mset_entry<MS_tr_less>(1), mset_entry<MS_sv_less_16>(3), mset_entry<MS_vl_greater_33>(3), mset_entry<MS_tr_greater_9>(3)};
 }
+// ---- unit 6: static_set::equal_range
+#elif VF_UNIT == 6
+SSET4(3, 6)
+SSET4(4, 6)
+SSET1(1, 6, less, "less", 0, etl::less<int>)
+SSET1(4, 6, coarse, "coarse_less", 2, CoarseLess)
+DEF_CFG(ST_less_4, "static_set<Tracked,4,less>", TK, 4, 6, 0, false, true, true, true, etl::static_set<TK, 4, etl::less<TK>>)
+std::vector<Entry> entries()
+{
+    return {ENTRIES4(SS, 3, true, 1), ENTRIES4(SS, 4, true, 1), set_entry<SS_less_1>(true, 1), set_entry<SS_coarse_4>(true, 1), set_entry<ST_less_4>(true, 1)};
+}
+// ---- unit 7: flat_set::insert(sorted_unique, first, last)
+#elif VF_UNIT == 7
+FSV4(3, 6)
+FSV4(4, 6)
+FSV1(1, 6, less, "less", 0, etl::less<int>)
+FSV1(4, 6, coarse, "coarse_less", 2, CoarseLess)
+FVL1(4, 6, less, "less", 0, etl::less<int>)
+FVL1(4, 6, tgreater, "transparent_greater", 1, TGreater)
+std::vector<Entry> entries()
+{
+    return {ENTRIES4(FS, 3, true, 1), ENTRIES4(FS, 4, true, 1), set_entry<FS_less_1>(true, 1), set_entry<FS_coarse_4>(true, 1), set_entry<FV_less_4>(true, 1),
+        set_entry<FV_tgreater_4>(true, 1)};
+}
+// ---- unit 8: flat_set<Tracked, static_vector>
 #elif VF_UNIT == 8
-DEF_CFG(FT_less_3, "flat_set<Tracked,static_vector<3>,less>", TK, 3, 6, false, false, false, true, true, etl::flat_set<TK, etl::static_vector<TK, 3>, etl::less<TK>>)
-DEF_CFG(FT_greater_4, "flat_set<Tracked,static_vector<4>,greater>", TK, 4, 6, true, false, false, true, true, etl::flat_set<TK, etl::static_vector<TK, 4>, etl::greater<TK>>)
-DEF_CFG(FT_less_16, "flat_set<Tracked,static_vector<16>,less>", TK, 16, 18, false, false, false, true, true, etl::flat_set<TK, etl::static_vector<TK, 16>, etl::less<TK>>)
+DEF_CFG(FT_less_3, "flat_set<Tracked,static_vector<3>,less>", TK, 3, 6, 0, false, false, true, true, etl::flat_set<TK, etl::static_vector<TK, 3>, etl::less<TK>>)
+DEF_CFG(FT_greater_4, "flat_set<Tracked,static_vector<4>,greater>", TK, 4, 6, 1, false, false, true, true, etl::flat_set<TK, etl::static_vector<TK, 4>, etl::greater<TK>>)
+DEF_CFG(FT_less_16, "flat_set<Tracked,static_vector<16>,less>", TK, 16, 18, 0, false, false, true, true, etl::flat_set<TK, etl::static_vector<TK, 16>, etl::less<TK>>)
 std::vector<Entry> entries()
 {
     return {set_entry<FT_less_3>(true, 2), set_entry<FT_greater_4>(true, 2), set_entry<FT_less_16>(false, 3)};
 }
 #else
-    #error "unknown VF_UNIT"
+    #error "unknown VF_UNIT / VF_PART"
 #endif
 
 std::vector<Entry> const& table()
@@ -1590,4 +1650,4 @@ void run_case(vf::Case& c)
 
 #define VF_STR2(x) #x
 #define VF_STR(x) VF_STR2(x)
-VF_MAIN("C09", "C09_sets_u" VF_STR(VF_UNIT), spec, run_case)
+VF_MAIN("C09", "C09_sets_u" VF_STR(VF_UNIT) "p" VF_STR(VF_PART), spec, run_case)
